@@ -81,7 +81,11 @@ func (s *kState) FindView(h uint64, r uint32, reason string) (*tmconsensus.Versi
 		return nil, 0, ViewWrongCommit
 	}
 
-	if h < s.Committing.Height {
+	if h < s.Voting.Height {
+		// Below the voting height and not the committing height (handled above).
+		// That is not only anything below the committing height:
+		// before the first commit there is no committing view yet (its height is zero),
+		// and a message for any height below the initial one, including height zero, ends up here.
 		return nil, 0, ViewBeforeCommitting
 	}
 
